@@ -274,6 +274,9 @@ impl<'a> World<'a> {
     /// flush (close=false) or close (close=true)
     pub fn op_close_file(&mut self, fs_slot: u8, fl: u8, close: bool) {
         let opk = if close { "close_file" } else { "flush_file" };
+        // dropping the RAII wrapper discards errors by documented design; under fault injection use the
+        // flavour that reports them
+        let fl = if self.faulty && close && fl == 2 { 1 } else { fl };
         let (h, fh) = match self.fslots.get(fs_slot as usize).and_then(|s| s.cur.clone()) {
             Some(x) => x,
             None => return,
@@ -701,6 +704,19 @@ impl<'a> World<'a> {
             let mut buf = vec![0u8; n];
             let r2 = got(self.call(|fs| fs.read(h, &mut buf, 0)));
             let r3 = got(self.call(|fs| fs.seek_start(h, fh.off as u64, 0)));
+            if self.faulty && self.disk.fired_total() > self.fired_mark {
+                self.fault_op = Some(self.op_idx);
+                if matches!(r2, Got::Ok(_)) {
+                    self.violate("C11", "device-error-swallowed", "read:cross-file", "a block-device call failed during read but the call returned Ok".into());
+                } else if matches!(r2, Got::Panic(_)) {
+                    let lp = self.last_panic.clone();
+                    self.violate("C11", "panic-on-device-error", "read", lp);
+                }
+                self.abort("fault fired");
+                let a = Allow { read_only: true, ..Default::default() };
+                self.finish("read", &a, None);
+                return;
+            }
             match (r1, r2, r3) {
                 (Got::Ok(_), Got::Ok(k), Got::Ok(_)) => {
                     if k != n || buf[..k] != data[at..at + k] {
